@@ -11,6 +11,7 @@ import (
 	"fmt"
 	"path/filepath"
 	"sort"
+	"strings"
 	stdsync "sync"
 	"time"
 
@@ -149,6 +150,17 @@ func getVolume(path string, create bool) *volume {
 func ResetVolumes() {
 	volMu.Lock()
 	volumes = map[string]*volume{}
+	volMu.Unlock()
+}
+
+// ResetVolumesExcept forgets every volume whose path does not start with keepPrefix.
+func ResetVolumesExcept(keepPrefix string) {
+	volMu.Lock()
+	for p := range volumes {
+		if !strings.HasPrefix(p, keepPrefix) {
+			delete(volumes, p)
+		}
+	}
 	volMu.Unlock()
 }
 
